@@ -17,10 +17,11 @@ Proved:
   (prefix/regex parsing incl. the decimal array length), for every ABI;
 * `shape_roundtrip_registered` — the instances at every supported registered type of the
   reference VM and of the framework's ABI mock set, by evaluation (also non-vacuity);
-* `unsupported_reported` — named non-struct field types (`state.Permissions`, `codec.Bytes`,
-  `ids.ID`) are *reported* (`type … not found in ABI`): the round trip fails loudly —
-  `c29_counterexample`: the known finding for `chaintest.TestAction`. (`bool` is supported since
-  fix C29-dynamic-bool; output types are encodable since fix C29-dynamic-marshal-outputs.)
+* `unsupported_reported` — general: any named non-struct field type (identifier-like name `n`
+  with no ABI entry, e.g. `Permissions`, `Bytes`, `ID`) is *reported* (`type n not found in ABI`)
+  for `n` and `[]n`: the round trip fails loudly — `c29_counterexample`: the known finding for
+  `chaintest.TestAction`. (`bool` is supported since /repo 5a5eff8; output types are encodable by
+  `dynamic.Marshal` since /repo 66d834d.)
 * `ptr_misdescribed` / `map_misdescribed` — pointers and maps are printed as `[]T` and come
   back as slices with a different shape *without* an error (not used by any registered type).
 What stays a parameter (hence the property is PARTIAL): the value-level agreement
@@ -179,8 +180,7 @@ example : SupTy outerTy ∧ Consistent (structsOf outerTy) := by
 
 Full statement (kept visible; NOT provable here — `linearcodec` and `encoding/json` are
 third-party code, and it is FALSE for named non-struct fields (`c29_counterexample`); the
-failures for `bool` fields and for output types were repaired by the fixes C29-dynamic-bool and
-C29-dynamic-marshal-outputs):
+failures for `bool` fields and for output types were repaired in /repo 5a5eff8 and 66d834d):
 
     theorem dynamic_codec_agrees : ∀ registered T, ∀ v : T,
       dynamic.Marshal(abi, T, json v) = v.Bytes() ∧ dynamic.Unmarshal(abi, v.Bytes(), T) ≡ json v
@@ -213,20 +213,24 @@ theorem dynamic_codec_agrees_partial {α : Type} (codec : GoTy → α)
 
 /-! ### unsupported kinds -/
 
-/-- named non-struct field types are printed by their bare Go name; nothing adds them to the
-ABI, so the lookup fails (witness: `[]state.Permissions` in `chaintest.TestAction`). -/
-theorem unsupported_reported (abi : ABI) (fuel : Nat)
-    (h : findType abi "Permissions".toList = none) :
-    reflectType abi (fuel + 2) ("[]Permissions".toList) = .error .notFound := by
-  have h1 : allPrims.find? (fun p => p.name == "Permissions".toList) = none := by rfl
-  have h2 : ("Permissions".toList == addressName) = false := by rfl
-  have hb : ("Permissions".toList == boolName) = false := by rfl
-  have h3 : slicePrefix? "Permissions".toList = none := by rfl
-  have h4 : arrayRegex "Permissions".toList = none := by rfl
-  have e : "[]Permissions".toList = '[' :: ']' :: "Permissions".toList := by rfl
-  rw [e, slice_roundtrip]
-  simp only [reflectType, h1, hb, h2, h3, h4, h]
-  rfl
+/-- **unsupported_reported**: a named non-struct field type is printed by its bare Go name `n`
+(any identifier-like name: not a built-in spelling, no `[]`/`[k]` prefix) and nothing adds it to
+the ABI; whenever the ABI has no type called `n`, `getReflectType` reports `type n not found`
+for `n` itself and for `[]n` — the round trip fails loudly, it never yields a wrong type. -/
+theorem unsupported_reported (abi : ABI) (fuel : Nat) (n : Name) (hg : goodName n)
+    (h : findType abi n = none) :
+    reflectType abi (fuel + 1) n = .error .notFound ∧
+      reflectType abi (fuel + 2) ('[' :: ']' :: n) = .error .notFound := by
+  obtain ⟨h1, hb, h2, h3, h4, _⟩ := hg
+  have e : reflectType abi (fuel + 1) n = .error .notFound := by
+    simp only [reflectType, h1, hb, h2, h3, h4, h]
+    rfl
+  refine ⟨e, ?_⟩
+  rw [slice_roundtrip, e]; rfl
+
+/-- the names occurring in /repo: `state.Permissions` (chaintest.TestAction), `codec.Bytes`, `ids.ID` -/
+example : goodName "Permissions".toList ∧ goodName "Bytes".toList ∧ goodName "ID".toList :=
+  ⟨⟨rfl, rfl, rfl, rfl, rfl, by decide⟩, ⟨rfl, rfl, rfl, rfl, rfl, by decide⟩, ⟨rfl, rfl, rfl, rfl, rfl, by decide⟩⟩
 
 def boolsTy : GoTy := mkStruct "Bools" [fld "Bool1" "bool1" .bool, fld "BoolArray" "boolArray" (.slice .bool)]
 def permsTy : GoTy := mkStruct "TestAction"
@@ -235,7 +239,7 @@ def permsTy : GoTy := mkStruct "TestAction"
 /-- the registered type for which the property still fails (named non-struct field) -/
 theorem c29_counterexample : roundtrip permsTy = some (.error .notFound) := by rfl
 
-/-- `bool` fields are supported (abi/dynamic `case "bool"`, fix C29-dynamic-bool) -/
+/-- `bool` fields are supported (abi/dynamic `case "bool"`, /repo 5a5eff8) -/
 theorem bools_roundtrip : roundtrip boolsTy = some (.ok (shape boolsTy)) := by rfl
 
 def ptrTy : GoTy := mkStruct "XPtr" [fld "P" "p" (.ptr innerTy)]
